@@ -15,6 +15,9 @@ META = {
                    "the last event of its step and the 'mentioned by a mapping in effect' path emits nothing."),
     "level_note": "Trusted: std HashMap/Vec/slice iteration semantics, rustc MIR, tmfacts, walker. In layouts without absorbing the absorbed list stays empty (C08-R4), so 'held' is input_pressed_keys.",
 }
+# --- additions to the level description (rules added after the first version)
+META['level_text'] += " R2 also: every return path of newly_press looks the pressed key's group up in layout.mappings, and a group that exists is scanned on every path (no early return before the selection)."
+# --- end additions
 
 NP = MOD + "newly_press"
 ANM = MOD + "add_new_mapping"
